@@ -21,7 +21,7 @@ EXPLANATION = (
     "value numbering); (RZ) the zero-residual shortcut returns the point at which the zero residual was measured; "
     "(RB) gd/adam hand to the termination object the point at which f was evaluated, the best point is only replaced "
     "under fval < best and is what is returned after the non-convergence warning; (SH) every solver returns a value "
-    "reshaped to the initial guess's shape. NOT decided: that contractive problems converge, agreement between methods.")
+    "reshaped to the initial guess's shape. (TN) the norms bounded by the tolerances are all-element 2-norms of step, iterate and function value; (TG) no cached value is reused on an approximate comparison; NOT decided: that contractive problems converge, agreement between methods.")
 ASSUMPTIONS = [
     "TerminationCondition.check compares norms of its arguments with the tolerances (its body is checked only for "
     "using all four tolerances conjunctively)",
